@@ -1,5 +1,5 @@
 #!/bin/bash
-# tools/mut.sh <relpath> <python-replace: OLD=>NEW> <check ids...>  -- try a mutation on a scratch copy of /repo
+# tools/mut.sh <relpath> <python-replace: OLD==>>NEW> <check ids...>  -- try a mutation on a scratch copy of /repo
 set -e
 rel="$1"; rep="$2"; shift 2
 M=/tmp/mrepo_$$
@@ -8,7 +8,7 @@ rsync -a --exclude=/target --exclude=/.git --exclude=/npm /repo/ $M/
 python3 - "$M/$rel" "$rep" <<'PY'
 import sys
 p, rep = sys.argv[1], sys.argv[2]
-old, new = rep.split("=>", 1)
+old, new = rep.split("==>>", 1)
 old = old.encode().decode("unicode_escape"); new = new.encode().decode("unicode_escape")
 s = open(p).read()
 assert s.count(old) >= 1, "mutation target not found"
